@@ -231,6 +231,13 @@ func (w *world) noteHeld(target, path string, v int64) {
 func (w *world) apply(target string, o wop) {
 	w.ts += 10
 	switch o.kind {
+	case "updf":
+		// an update far ahead of the writer's clock (a leaf stamped by the device,
+		// not the collector): later deletes with ordinary timestamps spare it
+		w.val++
+		w.noteHeld(target, okey(o.path), w.val)
+		og, el := orig(o.path)
+		w.c.GnmiUpdate(&pb.Notification{Timestamp: w.ts + 100000, Prefix: &pb.Path{Target: target, Origin: og}, Update: []*pb.Update{{Path: mkPath(el), Val: ival(w.val)}}})
 	case "upd", "same":
 		v := w.cur[target+"|"+okey(o.path)]
 		if o.kind == "upd" || v == 0 {
